@@ -13,7 +13,10 @@ RULE = ('1..4 probes with independent spike counts, id ranges with gaps and cura
         'after the merge. One case = one real Merger.merge(), also run through the Lean file-system model of the '
         'whole merge (which files appear in the output directory, their contents, nothing else touched); every '
         'fourth case uses a Merger / process that has merged before (same object twice, write_spike_clusters twice, '
-        'another recording first). Advisory stream (never a verdict, agreement recorded under advisory:*): probes '
+        'another recording first); every fourth case is a merge RETRIED on the same Merger after a merge() that raised '
+        'half-way (a required file of one probe - any of the ten, any probe; half of the time templates.npy, the file '
+        'read inside a per-probe loop - is not there yet, is then copied in): the retry must leave what a new Merger '
+        'leaves, Lean mergeRetry / theorem merge_again_as_fresh. Advisory stream (never a verdict, agreement recorded under advisory:*): probes '
         'without spikes / with one spike / without a required file, output directory = a probe directory. '
         'non-trivial = >= 2 probes')
 ASSUMPTIONS = ['np.save/np.load, csv are transport', 'same dtype across probes (dtype mixing is outside the domain)']
@@ -24,7 +27,12 @@ def impl(case):
     'same_object'  - the SAME Merger object merges twice, the files left by the second merge() are judged;
     'write_twice'  - write_spike_clusters() runs twice inside one merge();
     'after_other'  - another recording (`prelude`, other channel / template / spike counts) is merged first by
-                     another Merger in the same process.
+                     another Merger in the same process;
+    'retry'        - the file `fail.file` of probe `fail.probe` is not in its directory yet: merge() raises half-way
+                     (whatever the write_* methods had registered on the object stays there); the file is put in
+                     place and the SAME Merger merges again. The retried merge is the judged one (its input is the
+                     complete, in-domain set of probe directories); what the failed attempt raised / left is recorded
+                     under `first_attempt` and only tallied (that call is outside the quantifier).
     In every mode the judged directory must equal what a fresh process writes, i.e. the model."""
     mode = case.get('again')
     if case.get('advisory'):
@@ -43,10 +51,28 @@ def impl(case):
             Real(subs, d / 'merged').merge().close()
         return M.run_merge(case)
 
+    first = {}
+
     class Again(Real):
         if mode == 'same_object':
             def merge(self):
                 Real.merge(self).close()
+                return Real.merge(self)
+        elif mode == 'retry':
+            def merge(self):
+                f = case['fail']
+                src = self.subdirs[f['probe']] / f['file']
+                aside = self.out_dir.parent / ('not_copied_yet_' + f['file'])
+                src.rename(aside)
+                try:
+                    try:
+                        Real.merge(self).close()
+                        first['raised'] = None
+                    except Exception as e:  # noqa
+                        first['raised'] = type(e).__name__
+                    first['out_files'] = sorted(p.name for p in self.out_dir.iterdir())
+                finally:
+                    aside.rename(src)
                 return Real.merge(self)
         else:
             def write_spike_clusters(self):
@@ -54,20 +80,52 @@ def impl(case):
                 Real.write_spike_clusters(self)
     pm.Merger = Again
     try:
-        return M.run_merge(case)
+        res = M.run_merge(case)
     finally:
         pm.Merger = Real
+    if mode == 'retry':
+        res['first_attempt'] = first
+    return res
+
+
+# the files Merger.merge() cannot do without (np.load / read_python raise FileNotFoundError)
+REQUIRED = ['params.py', 'spike_times.npy', 'amplitudes.npy', 'spike_templates.npy', 'spike_clusters.npy',
+            'templates.npy', 'channel_map.npy', 'channel_positions.npy', 'pc_feature_ind.npy', 'template_feature_ind.npy']
 
 
 def with_again(case, i, rng):
-    """every third case or so exercises a Merger / process that has merged before"""
-    mode = {3: 'same_object', 7: 'after_other', 11: 'write_twice'}.get(i % 12)
+    """every second case exercises a Merger / process that has merged before, or a Merger whose merge() has raised"""
+    mode = {3: 'same_object', 7: 'after_other', 11: 'write_twice', 1: 'retry', 5: 'retry', 9: 'retry'}.get(i % 12)
     if mode:
         case['again'] = mode
         case['twice'] = False        # (the fresh second Merger of `twice` is the weaker form of these)
         if mode == 'after_other':
             case['prelude'] = M.merge_case(rng, nprobes=2 + i % 2)['probes']
+        if mode == 'retry':
+            # templates.npy is the one file opened INSIDE a per-probe loop (write_spike_clusters), i.e. after the
+            # loop has registered the earlier probes on the object: half of the retries
+            fn = 'templates.npy' if rng.random() < .5 else rng.pick([f for f in REQUIRED if f != 'templates.npy'])
+            k = len(case['probes'])
+            # any probe; a LATER probe (the loops have registered the earlier ones when they reach it) more often
+            probe = rng.randrange(1, k) if k > 1 and rng.random() < .5 else rng.randrange(k)
+            case['fail'] = dict(probe=probe, file=fn)
     return case
+
+
+def without_again(case):
+    return {k: v for k, v in case.items() if k not in ('again', 'prelude', 'twice', 'fail')}
+
+
+def drop_probe(case, i):
+    """the case without probe i (None: probe i is the one whose file is missing at the first attempt)"""
+    P = case['probes']
+    c = dict(case, probes=P[:i] + P[i + 1:])
+    f = case.get('fail')
+    if f:
+        if f['probe'] == i:
+            return None
+        c['fail'] = dict(f, probe=f['probe'] - (1 if i < f['probe'] else 0))
+    return c
 
 
 # ----------------------------------------------------------------------------------------
@@ -224,10 +282,41 @@ def probe_names(case):
 
 
 def fs_query(case):
+    if case.get('again') in ('same_object', 'retry') and not case.get('advisory'):
+        return retry_query(case)
     names = probe_names(case)
     fs = [dict(dir=names[k], name=n, file=f) for k in range(len(names)) for n, f in sorted(probe_files(case, k).items())]
     out = 'merged' if case.get('out_is_probe') is None else names[case['out_is_probe']]
     return dict(p=PID, op='merge_fs', fs=fs, subdirs=names, out=out)
+
+
+def retry_query(case):
+    """two merge() calls of ONE Merger (Lean `C11.mergeRetry`): the first on the directories without the file
+    `fail` (it raises half-way), the file is put in place (`edits`), the second call is the judged one.
+    `same_object`: no file missing, no edit - the first call returns."""
+    f = case.get('fail') if case.get('again') == 'retry' else None
+    base = {k: v for k, v in case.items() if k not in ('again', 'fail')}
+    names = probe_names(case)
+    if f is None:
+        return dict(fs_query(base), op='merge_fs_retry', edits=[])
+    q = fs_query(dict(base, mutations=[dict(probe=f['probe'], delete=f['file'])]))
+    edits = [dict(dir=names[f['probe']], name=f['file'], file=probe_files(base, f['probe'])[f['file']])]
+    return dict(q, op='merge_fs_retry', edits=edits)
+
+
+def first_attempt_note(case, ok, fsans):
+    """the merge() that raised (outside the quantifier: tallied, never a verdict): real outcome vs Lean `mergeRetry`"""
+    fm = ((fsans or {}).get('ok') or {}).get('first')
+    fa = (ok or {}).get('first_attempt')
+    if fm is None or fa is None:
+        return 'no answer'
+    exp_raised = ERR_CLASS.get((fm['error'] or {}).get('kind'))
+    # a missing params.py: read_python raises a plain IOError (= OSError, the base class of FileNotFoundError)
+    if fa.get('raised') != exp_raised and not (exp_raised == 'FileNotFoundError' and fa.get('raised') == 'OSError'):
+        return 'exception: real %s, model %s' % (fa.get('raised'), fm['error'])
+    if sorted(fm['out_names']) != fa.get('out_files'):
+        return 'files left in the output directory: real %s, model %s' % (fa.get('out_files'), sorted(fm['out_names']))
+    return 'agree'
 
 
 def _real_file(name, ok):
@@ -442,6 +531,7 @@ def tally(rep, case, impl_res, ans):
             rep.extra.setdefault('advisory_differences', []).append(dict(kind=case['advisory'], what=note[:300]))
         return
     rep.count('again:%s' % case.get('again', 'no'))
+    tally_retry(rep, case, impl_res, ans)
     rep.count('probe_dir_names:%s/%s' % (case.get('dirnames', 'idx'), case.get('dirkind', 'path')))
     rep.count('probes:%d' % len(case['probes']))
     t = [x for p in case['probes'] for x in p['spike_samples']]
@@ -449,6 +539,19 @@ def tally(rep, case, impl_res, ans):
         rep.count('ties')
     rep.count('tdtype:' + case['probes'][0]['dtypes']['spike_samples'])
     rep.count('tsv_probes:%d' % sum(1 for p in case['probes'] if p.get('text_files')))
+
+
+def tally_retry(rep, case, impl_res, ans):
+    if case.get('again') != 'retry':
+        return
+    f = case['fail']
+    rep.count('retry_after_failed_merge:%s of %s' % (
+        'templates.npy (read inside the per-probe loop)' if f['file'] == 'templates.npy' else 'another required file',
+        'probe 0' if f['probe'] == 0 else 'a later probe'))
+    note = first_attempt_note(case, impl_res.get('ok'), ans.get('second'))
+    rep.count('retry_first_attempt_vs_model:%s' % ('agree' if note == 'agree' else 'DIFFERS'))
+    if note != 'agree':
+        rep.extra.setdefault('advisory_differences', []).append(dict(kind='first attempt of a retried merge', what=note[:300]))
 
 
 def classify(case, impl_res, ans, why):
@@ -459,11 +562,13 @@ def classify(case, impl_res, ans, why):
 def shrink(case):
     if case.get('again') or case.get('twice'):
         # first: does it fail on a fresh Merger in a fresh state too?
-        yield {k: v for k, v in case.items() if k not in ('again', 'prelude', 'twice')}
+        yield without_again(case)
     P = case['probes']
     if len(P) > 1:
         for i in range(len(P)):
-            yield dict(case, probes=P[:i] + P[i + 1:])
+            c = drop_probe(case, i)
+            if c is not None:
+                yield c
     for k, p in enumerate(P):
         ns = len(p['spike_samples'])
         if ns > 2:
